@@ -6,10 +6,15 @@
   run.  Spec: GLua/Spec/Cells.lean (variables are heap cells, closures hold cell references).
   Lemmas: GLua/Proofs/Upvalue.lean, GLua/Proofs/UpvalueSim.lean.
 
-  What these theorems do NOT cover (tie = monitored program runs + Spec/Sem, built by the integrator):
-  that compile.go / the VM *establish* the Discipline on every exit path (P2 `compile_establishes_discipline`).
+  Compile side (§8): a structural model of where compile.go emits OP_CLOSE (Model/CloseCompile.lean, tied to the
+  real compiler token by token by the `cc` requests of the C03M check), an abstract machine running that code
+  (Model/CloseMachine.lean), a certificate checker `closeDiscipline` (Model/CloseCheck.lean) proved sound, and
+  `compile_establishes_discipline`: false of compileBreakStmt as it was before b47a12e once labels and backward gotos
+  are allowed (negation proved from the witness of finding C03-break-after-backward-goto), proved for every
+  goto-free program (before and after that repair); composed with §4 into `closures_keep_variables`.
 -/
 import GLua.Proofs.UpvalueSim
+import GLua.Proofs.CloseTop
 import GLua.Engines.UpvalEng
 
 namespace GLua.Props.C03
@@ -501,5 +506,166 @@ theorem inv_passes_monitor (s : St) (hI : Inv s) :
   have hu : s.uvs[h]? = some s.uvs[h] := by simp [hlt]
   rw [idxOf_of s h _ hu]
   exact hI.inRange h _ hu (hI.allOpen h hm _ hu)
+
+/-! ## 8. the compiler establishes the Discipline
+
+  Model/CloseCompile.lean transcribes, for an abstract statement language that keeps only scoping (blocks, `local`,
+  closure creation capturing chosen visible locals, uses, while / repeat / numeric for / generic for with their
+  hidden control registers, break, labels and goto, return), where compile.go allocates registers and where it
+  emits OP_CLOSE (with which operand) and jumps: EnterBlock / LeaveBlock / CloseUpvalues, the RefUpvalue marking of
+  the FunctionExpr arm, the four loop statements, compileBreakStmt, compileGotoStmt / compileLabelStmt /
+  FindLabel / ResolveGoto / ResolveCurrentBlockGotosWithParentBlock / ResolveForwardGoto, compileReturnStmt.
+  Model/CloseMachine.lean runs the patched code of one activation and emits the trace alphabet of §4;
+  a path is a list of choices, one per executed instruction (conditional jumps, FORLOOP, TFORLOOP consult it). -/
+
+open GLua.CloseC in
+/-- **closeDiscipline_sound** — the certificate checker is sound against the machine: on a compiled function it
+    accepts, the trace of EVERY path (any length, any choice at every conditional jump, FORLOOP and TFORLOOP) is
+    defined in the cell semantics — every access by name hits a live variable instance, no register is re-declared
+    while the instance it holds is captured and not closed.  (No assumption on how the code was produced.) -/
+theorem closeDiscipline_sound (nparams : Nat) (fc : FC) (h : closeDiscipline nparams fc = true) (path : List Bool) :
+    (Cells.run CSt.init (traceOf nparams fc path)).isSome = true :=
+  GLua.CloseC.closeDiscipline_sound nparams fc h path
+
+open GLua.CloseC in
+/-- the statement "the compiler establishes the Discipline": for every program of the statement language the
+    compile model accepts, every execution path of the compiled code — fall-through, every break, goto, return and
+    back edge, any number of iterations — yields a trace on which the cell semantics is defined, i.e. which
+    satisfies the hypothesis of `upvalue_refines_cells`.  `labelBreak` selects compileBreakStmt after (true) / before
+    (false) repair b47a12e. -/
+def compile_establishes_discipline_stmt (labelBreak : Bool) : Prop :=
+  ∀ (nparams : Nat) (s : Stmt) (fc : FC), compileFunctionWith labelBreak nparams s = .ok fc →
+    ∀ path : List Bool, (Cells.run CSt.init (traceOf nparams fc path)).isSome = true
+
+/-- the witness of finding C03-break-after-backward-goto:
+    `while c() do local x; ::top:: if c() then break end; sink(function() … x … end); goto top end; local a; use(a)` -/
+def breakWitness : GLua.CloseC.Stmt :=
+  .seq (.whileLoop (.seq (.localDecl 0) (.seq (.label 1) (.seq (.ifThen .brk .skip) (.seq (.capture [0]) (.goto 1))))))
+    (.seq (.localDecl 10) .use)
+
+/-- the path: enter the loop, skip the break, create the closure, go back to `top`, break, declare `a` -/
+def breakWitnessPath : List Bool := [false, false, false, false, true, false, false, false, false, false, false]
+
+open GLua.CloseC in
+/-- **compile_establishes_discipline_before_fix_fails** — compileBreakStmt before b47a12e does not establish the
+    Discipline: `break` is compiled before the closure that captures `x`, so it emits no CLOSE; the backward goto
+    brings control back to it with `x` captured; behind the loop the register of `x` is re-declared while the closure
+    still refers to it (on the real interpreter the closure and the new local then shared the register: finding
+    C03-break-after-backward-goto, reproduced on /repo d713e3e; repaired by b47a12e). -/
+theorem compile_establishes_discipline_before_fix_fails : ¬ compile_establishes_discipline_stmt false := by
+  intro H
+  have h : (match compileFunctionWith false 0 breakWitness with
+      | .ok fc => (Cells.run CSt.init (traceOf 0 fc breakWitnessPath)).isSome
+      | .error _ => true) = false := by decide +kernel
+  cases hc : compileFunctionWith false 0 breakWitness with
+  | error e => rw [hc] at h; cases h
+  | ok fc =>
+    rw [hc] at h
+    have := H 0 breakWitness fc hc breakWitnessPath
+    simp only at h
+    rw [h] at this
+    cases this
+
+open GLua.CloseC in
+/-- after b47a12e the witness compiles to code the checker accepts (the break closes), and the same path is
+    disciplined -/
+example : (compileFunction 0 breakWitness).toOption.map (fun fc =>
+    (closeDiscipline 0 fc, (Cells.run CSt.init (traceOf 0 fc (breakWitnessPath ++ [false, false, false]))).isSome)) =
+    some (true, true) := by decide +kernel
+
+open GLua.CloseC in
+/-- **compile_establishes_discipline_partial** — for every program without labels and gotos (guard `NoGoto`;
+    blocks, locals, closures capturing any visible locals from any depth, while / repeat with capturing until
+    expression / numeric for / generic for, break from any depth, return; any nesting, any size) the compile model's
+    output passes the checker, hence every execution path of the compiled code is disciplined. -/
+theorem compile_establishes_discipline_partial (labelBreak : Bool) (nparams : Nat) (s : Stmt) (fc : FC)
+    (hg : NoGoto s = true) (h : compileFunctionWith labelBreak nparams s = .ok fc) (path : List Bool) :
+    closeDiscipline nparams fc = true ∧ (Cells.run CSt.init (traceOf nparams fc path)).isSome = true :=
+  ⟨compile_accepts_nogoto_with labelBreak nparams s fc hg h,
+   GLua.CloseC.closeDiscipline_sound nparams fc (compile_accepts_nogoto_with labelBreak nparams s fc hg h) path⟩
+
+/-- non-vacuity: nested loops, a capturing until expression, a break out of a nested capturing block, a for loop
+    whose variable is captured — compiled, accepted, and a path through two iterations -/
+def discDemo : GLua.CloseC.Stmt :=
+  .seq (.localDecl 1) (.seq (.whileLoop (.seq (.localDecl 2) (.seq (.doBlock (.seq (.localDecl 3)
+    (.seq (.capture [0, 1, 2]) (.ifThen .brk .skip)))) .use)))
+    (.seq (.repeatLoop (.seq (.localDecl 4) (.capture [1])) [0, 1]) (.seq (.numFor (.seq (.capture [4]) .use)) (.seq (.localDecl 5) .use))))
+
+open GLua.CloseC in
+example : NoGoto discDemo = true ∧ (compileFunction 0 discDemo).toOption.map (closeDiscipline 0) = some true := by decide +kernel
+
+open GLua.CloseC in
+example : (compileFunction 0 discDemo).toOption.map (fun fc =>
+    let r := runPath (finalize fc) {} ([false, false, false, false, false, false, true, false, false, false, true] ++ List.replicate 60 false)
+    (r.1.length, r.2)) = some (37, .returned) := by
+  decide +kernel
+
+open GLua.CloseC in
+/-- **checked_code_refines_cells** — on code the checker accepts, the run-time mechanism (registers, `findUpvalue`,
+    `closeUpvalues`, `Upvalue.Value/SetValue`) executes every path without failing and every read — through a name
+    or through any closure created so far — observes exactly the value the cell semantics (one heap cell per
+    variable instance) prescribes.  `n` = size of the register file (enough registers: Model/Registry). -/
+theorem checked_code_refines_cells (nparams : Nat) (fc : FC) (hc : closeDiscipline nparams fc = true) (path : List Bool)
+    (n : Nat) (hb : ∀ op ∈ traceOf nparams fc path, opBounded n op) :
+    ∃ c' outs m', Cells.run CSt.init (traceOf nparams fc path) = some (c', outs) ∧
+      mrun (MSt.init n) (traceOf nparams fc path) = .ok (m', outs) ∧ Inv m'.st := by
+  have h1 := GLua.CloseC.closeDiscipline_sound nparams fc hc path
+  cases hr : Cells.run CSt.init (traceOf nparams fc path) with
+  | none => rw [hr] at h1; cases h1
+  | some p =>
+    obtain ⟨c', outs⟩ := p
+    obtain ⟨m', hm, hI⟩ := upvalue_refines_cells n _ hb c' outs hr
+    exact ⟨c', outs, m', rfl, hm, hI⟩
+
+open GLua.CloseC in
+/-- **closures_keep_variables** (guarded: goto-free programs) — the compiled code refines the cell semantics:
+    for every program of the statement language without labels / gotos and every execution path of its compiled
+    code, the register / open-upvalue-list mechanism never fails and all closures observe, at every `use`, the
+    values of the variable instances they captured — each execution of a `local` is a fresh variable, closures
+    capturing it share it and keep it after the block, the loop iteration (fall-through, break, back edge) or
+    the function (return) has ended. -/
+theorem closures_keep_variables (nparams : Nat) (s : Stmt) (fc : FC) (hg : NoGoto s = true)
+    (h : compileFunction nparams s = .ok fc) (path : List Bool) (n : Nat)
+    (hb : ∀ op ∈ traceOf nparams fc path, opBounded n op) :
+    ∃ c' outs m', Cells.run CSt.init (traceOf nparams fc path) = some (c', outs) ∧
+      mrun (MSt.init n) (traceOf nparams fc path) = .ok (m', outs) ∧ Inv m'.st :=
+  checked_code_refines_cells nparams fc (compile_accepts_nogoto nparams s fc hg h) path n hb
+
+/-- the full statement (every program, also with labels and gotos); `labelBreak` as above -/
+def closures_keep_variables_stmt (labelBreak : Bool) : Prop :=
+  ∀ (nparams : Nat) (s : GLua.CloseC.Stmt) (fc : GLua.CloseC.FC), GLua.CloseC.compileFunctionWith labelBreak nparams s = .ok fc →
+    ∀ (path : List Bool) (n : Nat), (∀ op ∈ GLua.CloseC.traceOf nparams fc path, opBounded n op) →
+      ∃ c' outs m', Cells.run CSt.init (GLua.CloseC.traceOf nparams fc path) = some (c', outs) ∧
+        mrun (MSt.init n) (GLua.CloseC.traceOf nparams fc path) = .ok (m', outs)
+
+open GLua.CloseC in
+/-- **closures_keep_variables_before_fix_fails** — before b47a12e: on the witness the cell semantics is undefined (the
+    Discipline is broken), and the mechanism then makes the closure observe the NEW local (next example). -/
+theorem closures_keep_variables_before_fix_fails : ¬ closures_keep_variables_stmt false := by
+  intro H
+  have h : (match compileFunctionWith false 0 breakWitness with
+      | .ok fc => (Cells.run CSt.init (traceOf 0 fc breakWitnessPath)).isSome ||
+          !(traceOf 0 fc breakWitnessPath).all (fun op => decide (opBounded 4 op))
+      | .error _ => true) = false := by decide +kernel
+  cases hc : compileFunctionWith false 0 breakWitness with
+  | error e => rw [hc] at h; cases h
+  | ok fc =>
+    rw [hc] at h
+    simp only [Bool.or_eq_false_iff, Bool.not_eq_false', List.all_eq_true, decide_eq_true_eq] at h
+    obtain ⟨c', outs, m', hr, _⟩ := H 0 breakWitness fc hc breakWitnessPath 4 h.2
+    rw [hr] at h
+    cases h.1
+
+open GLua.CloseC in
+/-- what the mechanism did on the witness before the repair, two steps further (`use(a)` calls the closure): it read
+    10 through the upvalue that should hold x = 0; after the repair it reads 0 -/
+example : (compileFunctionWith false 0 breakWitness).toOption.map (fun fc =>
+    (mrun (MSt.init 4) (traceOf 0 fc (breakWitnessPath ++ [false, false]))).toOption.map (·.2)) =
+    some (some [some (.int 10), some (.int 10)]) := by decide +kernel
+
+open GLua.CloseC in
+example : (compileFunction 0 breakWitness).toOption.map (fun fc =>
+    (mrun (MSt.init 4) (traceOf 0 fc (breakWitnessPath ++ [false, false, false]))).toOption.map (·.2)) =
+    some (some [some (.int 10), some (.int 0)]) := by decide +kernel
 
 end GLua.Props.C03
